@@ -3,10 +3,10 @@
    theorems validate it as an oracle: its writer, parser and decoder are mutually
    consistent for ALL streams / tables / block sequences (no size bound). *)
 From Coq Require Import List ZArith Bool.
-From LJT Require Import model.T81Spec model.T81Arith gen.GenAricom proofs.T81StuffProofs proofs.T81ParseProofs proofs.T81LenProofs
+From LJT Require Import model.T81Spec model.T81Arith gen.GenAricom gen.GenT81Src proofs.T81SrcProofs proofs.T81StuffProofs proofs.T81ParseProofs proofs.T81LenProofs
   proofs.T81BlockProofs proofs.T81ScanProofs proofs.T81HuffProofs proofs.T81WriterProofs proofs.T81WrittenProofs proofs.T81CompleteProofs proofs.T81ParseInvProofs proofs.T81Examples
   proofs.T81ArithProofs proofs.T81QMProofs proofs.T81AricomProofs proofs.T81ArithExamples
-  proofs.T81ArithProofsIdeal proofs.T81ArithProofsBytes proofs.T81ArithProofsScan proofs.T81LosslessProofs.
+  proofs.T81ArithProofsIdeal proofs.T81ArithProofsBytes proofs.T81ArithProofsScan proofs.T81LosslessProofs proofs.T81ProgProofs.
 Import ListNotations.
 Local Open Scope Z_scope.
 
@@ -157,6 +157,22 @@ Theorem C04_lossless_samples_agree : forall cs ws psv p pt row0 pos src coded bi
 Proof. exact lenc_samples_agree. Qed.
 Print Assumptions C04_lossless_samples_agree.
 
+(* ---- progressive process, Huffman (Annex G.1.2.3) ---- *)
+(* (14) successive approximation is monotone: an AC refinement scan with p1 = 2^Al changes each
+   coefficient of the band k..Se by 0 or by p1 away from zero, makes zero-history coefficients
+   0 or +-p1, and leaves everything outside the band alone (also for the correction bits of an
+   EOB run) -- earlier, more significant bits are never disturbed *)
+Theorem C04_progressive_refinement : forall fuel ac m w r c se p1 k bs m' run bs',
+  0 <= r * w + c -> 0 <= k <= se + 1 ->
+  pac_refine fuel ac m w r c se p1 k bs = Some (m', run, bs') -> refined m m' w r c k se p1.
+Proof. exact pac_refine_refines. Qed.
+Print Assumptions C04_progressive_refinement.
+
+Theorem C04_progressive_correction : forall fuel m w r c se p1 k bs m' bs', 0 <= r * w + c -> 0 <= k ->
+  pcorrect fuel m w r c se p1 k bs = Some (m', bs') -> refined m m' w r c k se p1.
+Proof. exact pcorrect_refines. Qed.
+Print Assumptions C04_progressive_correction.
+
 (* ---- arithmetic coding (Annex D, F.1.4 / F.2.4; sequential process SOF9) ---- *)
 (* (6) binarisation and statistics-bin selection (DC difference with conditioning context, AC
    EOB / zero-run / magnitude decisions with the Kx split, fixed-estimate sign) are inverted by
@@ -230,6 +246,32 @@ Proof. exact ex3_runs. Qed.
 Example C04_example_ablocks_ok :
   ablocks_ok [0; 0] [(0%nat, to_zigzag (ex2_b 5)); (1%nat, to_zigzag (ex2_b (-3))); (0%nat, to_zigzag (ex2_b 900))].
 Proof. exact ex_ablocks_ok. Qed.
+
+(* ---- C04_source_*: constants the model shares with the working tree (regenerated every run) ---- *)
+Theorem C04_source_zigzag : zz_nat = src_natural_order.
+Proof. exact source_zigzag. Qed.
+Print Assumptions C04_source_zigzag.
+
+Theorem C04_source_markers :
+  [M_SOF0; M_DHT; M_DAC; M_RST0; M_SOI; M_EOI; M_SOS; M_DQT; M_DNL; M_DRI; M_APP0; M_COM] = src_markers_c /\
+  src_markers_c = src_markers_d.
+Proof. exact source_markers. Qed.
+Print Assumptions C04_source_markers.
+
+Theorem C04_source_limits : src_limits = [4; 4; 16; 4; 4; 10].
+Proof. exact source_limits. Qed.
+Print Assumptions C04_source_limits.
+
+(* the length fields jcmarker.c writes and jdmarker.c insists on are the B.2.x formulas of the spec writer *)
+Theorem C04_source_lengths :
+  (forall n p y x comps, len_field (SegSOF n p y x comps) = src_Lf (lenZ comps) /\ src_Lf (lenZ comps) = src_d_Lf (lenZ comps)) /\
+  (forall comps ss se ah al d r, len_field (SegSOS comps ss se ah al d r) = src_Ls (lenZ comps) /\ src_Ls (lenZ comps) = src_d_Ls (lenZ comps)) /\
+  (forall ri, len_field (SegDRI ri) = src_Lr /\ src_Lr = src_d_Lr) /\
+  (forall tabs, len_field (SegDAC tabs) = src_La (lenZ tabs)) /\
+  (forall pq tq q, qtab_ok (pq, tq, q) = true -> len_field (SegDQT [(pq, tq, q)]) = src_Lq (negb (pq =? 0))) /\
+  (forall tc th counts vals, htab_ok (tc, th, counts, vals) = true -> len_field (SegDHT [(tc, th, counts, vals)]) = src_Lh (sumZ counts)).
+Proof. exact source_lengths. Qed.
+Print Assumptions C04_source_lengths.
 
 (* non-vacuity: the hypotheses of (1b) and (4) hold for concrete streams, which parse and
    decode to the coefficients written (8x8 grey; 17x9 two components 2x1/1x1, SOF1, 16-bit
